@@ -11,14 +11,14 @@ RUN_MODULE = "C13.Run"
 RUN_FN = "run_case"
 HARNESS_BIN = "c13"
 HARNESS_BINS = ["c13", "c03bb", "c03h2bb"]
-SHRINK_KEEP = ("ctx", "req", "rsp")
+SHRINK_KEEP = ("ctx", "req", "rsp", "go")
 RULE = ("cases: one listener/session context (peer v4/v6/absent, public address, http/https, sticky name, closing, "
         "elide/send X-Real-IP, correlation header name incl. names colliding with the reserved ones), a header list "
         "drawn from small colliding pools (every proxy-owned name in several case variants and positions, duplicates, "
         "empty/adversarial values that imitate sozu's own elements, cookies incl. the sticky one, optional trailers), "
         "pushed through front H1 (real kawa parse at a seeded segmentation) or front H2 (real pkawa::handle_header on an "
         "HPACK block) and serialised toward H1 (kawa block converter) or H2 (H2BlockConverter); then optionally a "
-        "backend response through on_response_headers and optional per-frontend response edits (HSTS: append / set-if-absent / set). A separate malformed stream (forbidden bytes in names/values, "
+        "optionally a per-frontend request policy (rewrite host / path, header inject / delete); backend response through on_response_headers and optional per-frontend response edits (HSTS: append / set-if-absent / set). A separate malformed stream (forbidden bytes in names/values, "
         "broken cookie grammar) must be rejected. Non-trivial and distinct: the request is forwarded, carries >=1 "
         "client-supplied proxy-owned header and >=2 other end-to-end headers; distinct by op text.")
 ASSUMPTIONS = [
@@ -201,6 +201,15 @@ def request_case(rng, cid, with_rsp):
         ops.append(["t", b(n), b(v)])
     if body_raw or body_dec:
         ops.append(["body", body_raw, body_dec])
+    if rng.random() < 0.3:
+        # per-frontend request policy: rewrite host / path, inject / delete request headers
+        if rng.random() < 0.4:
+            ops.append(["rwhost", b(rng.choice(["new.example", "backend.internal:8080"]))])
+        if rng.random() < 0.3:
+            ops.append(["rwpath", b(rng.choice(["/new", "/v2/a?b=c"]))])
+        for _ in range(rng.randint(0, 3)):
+            ops.append(["hreq", b(rng.choice(["X-New", "X-A", "x-a", "Accept", "Host", "host", "X-Forwarded-Host", "Sozu-Id", "X-Forwarded-For", "Via", "X-B"])),
+                        b(rng.choice(["", "", "v", "evil.example", "1.1.1.1"]))])
     if front == 1:
         total = 40 + sum(len(n) + len(v) + 4 for n, v in hs)
         if rng.random() < 0.6:
@@ -372,8 +381,10 @@ LEVEL_TEXT = ("Machine-checked proof (Coq 8.16) over an executable model of the 
               "against the extracted model, with the property's own oracle evaluated on the implementation's output.")
 LEVEL_NOTE = ("Trusted: Coq kernel; extraction and ocaml/driver.ml for the correspondence only; kawa's parser/serialiser, "
               "loona-hpack and Display of IpAddr are oracles (only their view/alphabet is assumed). Per-frontend RESPONSE "
-              "edits (HSTS) are modelled and tied (apply_response_header_edits through the hook); per-frontend REQUEST "
-              "rewrites (router.rs apply_request_rewrites_and_headers, operator configuration) are outside the model. The "
-              "black-box tier drives the HTTP/1 frontend of a real worker only (no TLS/H2 client).")
+              "edits (HSTS) and per-frontend REQUEST policy (rewrite host/path, header inject/delete: router.rs "
+              "apply_request_rewrites_and_headers) are modelled and tied through hooks. The theorems about the correlation "
+              "header assume it is not named like a reserved forwarding field (validate_sozu_id_header only checks the token "
+              "grammar; kept as hypothesis id_ok, colliding names are generated and the model mirrors them). Black-box tiers: "
+              "HTTP/1 and HTTP/2 (TLS) frontends of a real worker, HTTP/1.1 and h2c recording backends.")
 TECHNIQUE = "Rocq/Coq proof over an executable Gallina model + differential correspondence (extracted OCaml vs real crate)"
 CLAIMED = True
